@@ -6,7 +6,7 @@ from lib import recipe
 
 INV = ['InOrder', 'OversizeStops', 'BytesConserved']
 PROPS = ['NoReadAfterStop', 'NeverShort', 'EOFExact', 'OversizeOnlyIfTooBig', 'WithinLimit',
-         'ArgErrorsBeforeIO']
+         'ArgErrorsBeforeIO', 'IntoExact']
 MINV = INV + ['BytesIntact', 'OutcomesKnown', 'SendRefusalsExact', 'AsksWhatRemains']
 
 
